@@ -214,6 +214,13 @@ class MediaRequestBase(RequestHandlerBase):
             # the live timeline counts from zero at availabilityStartTime,
             # the stored decode times from the first decode time of the file
             tfdt.base_media_decode_time -= representation.start_time
+        if tfdt.base_media_decode_time < 0:
+            # the requested time does not belong to the segment that was
+            # found for it
+            logging.warning(
+                '%s: negative decode time %d', media_file.name,
+                tfdt.base_media_decode_time)
+            return flask.make_response('Not Found', 404)
 
         # Update the sequenceNumber field in the MovieFragmentHeader
         # box
